@@ -26,7 +26,7 @@ LEVEL = ("For generated aggregates (1-4 sites, with/without a vibrational mode) 
          "read after all contexts are closed equals the state requested outside; so does a state requested while other "
          "energy units are current, and a state requested from an aggregate that has been used before (diagonalised, "
          "relaxation tensors or rate matrices built from it)."
-         " Later additions: deterministic grid of conditions x contexts; two-exciton band; modes on two molecules; supplied effective Hamiltonian in the weak-coupling limit; thermal reduced density matrices in units contexts and with non-zero ground-state energies.")
+         " Later additions: deterministic grid of conditions x contexts; two-exciton band; modes on two molecules; supplied effective Hamiltonian in the weak-coupling limit; thermal reduced density matrices in units contexts and with non-zero ground-state energies. Round five: a molecule from which one of two environments was removed; a molecule without bath at T = 0.")
 NOTE = ("The 'thermal' condition does not fix its basis (the code says so); its Boltzmann clause is asserted for requests "
         "made outside any context (site basis). With vibrational levels only 'thermal', the weak-coupling state and "
         "get_thermal_ReducedDensityMatrix and the strong-coupling state (vibronic diagonal energies minus the site's "
@@ -385,14 +385,23 @@ def check_case(case, ctx):
                 if where_ctx.startswith("units-"):
                     if not (T == 0.0 and lowest_degenerate):
                         ctx.close("same-state-in-any-units-context", got, ref, rtol=0, atol=1e-9, where=cond, T=T)
-                elif cond == "thermal" and where_ctx == "eigen" and T > 0 and \
-                        math.exp(-min(spec["E"]) * orc.CM2INT / kT) > 1e-13:
+                elif cond == "thermal" and where_ctx == "eigen" and _excited_states_matter(spec, T, kT):
                     # thermally populated excited states: their populations follow the diagonal of the Hamiltonian in
                     # the basis of the request (site energies outside, exciton energies in the eigenbasis) - the two
                     # requests then differ by construction, nothing to compare
                     ctx.label("thermal/eigen:excited-states-populated-not-compared")
                 elif cond in ("tes_weak", "tes_strong", "thermal", "tes_weak_rh") and not (T == 0.0 and lowest_degenerate):
                     ctx.close("same-state-inside-and-outside", got, ref, rtol=0, atol=1e-9, where=tag, T=T)
+
+
+def _excited_states_matter(spec, T, kT):
+    """whether excited levels carry thermal weight (or, at T = 0, an exciton lies at or below the ground state): the
+    state then depends on whether site or exciton energies are used"""
+    emin = float(numpy.min(numpy.linalg.eigvalsh(gens.site_hamiltonian_int(spec)[1:, 1:])))
+    emin = min(emin, min(spec["E"]) * orc.CM2INT)
+    if T == 0.0:
+        return emin <= 1e-9
+    return emin <= 0.0 or math.exp(-emin / kT) > 1e-13
 
 
 def _boltz(ctx, pops, E, T, kT, where):
